@@ -910,6 +910,38 @@ func gen(g *core.G) {
 			emitText("String["+sz+"]", true)
 		}
 	}
+	// Struct: every key form x every value type (each answer of "accepts undef"), alone, after and before another member,
+	// and in the other surface forms of the parameter list; nested inside the old forms and the old forms inside it
+	// (valid by construction: always compared with the model, so that a creator that starts refusing a form shows)
+	emitValid := func(t string) { g.Emit("rt-type " + hx(t) + " " + syn.OracleSexp(t)) }
+	for _, k := range syn.StructKeyForms {
+		for _, v := range syn.StructValueTypes {
+			m := k + " => " + v
+			emitValid("Struct[{"+m+"}]")
+			emitValid("Struct[{b => Integer, "+m+"}]")
+			emitValid("Struct[{"+m+", Optional[a] => String}]")
+		}
+		m := k + " => Any"
+		emitValid("Struct[[{"+m+"}]]")
+		emitValid("Struct["+m+"]")
+		emitValid("Struct["+m+", b => Integer]")
+		emitValid("Array[Struct[{"+m+"}], 1, 2]")
+		emitValid("Optional[Struct[{"+m+"}]]")
+		emitValid("Variant[Struct[{"+m+"}], Struct]")
+		emitValid("Hash[String, Struct[{"+m+"}]]")
+		emitValid("Tuple[Struct[{"+m+"}], Struct[{}]]")
+		emitValid("Type[Struct[{"+m+"}]]")
+	}
+	for _, t := range []string{"Struct[{'' => Any}]", "Struct[{Optional[''] => Any}]", "Struct[{Optional[String] => Any}]",
+		"Struct[{1 => Any}]", "Struct[{a => 1}]", "Struct[{a => Any}, {b => Any}]", "Struct[{a => Any}, 1]", "Struct[1]", "Struct['a']", "Struct[String]", "Struct[{Optional[Optional[a]] => Any}]",
+		"Struct[{NotUndef[String] => Any}]", "Struct[{String => Any}]", "Struct[{String[1] => Any}]", 
+		"Struct[{Type[a] => Any}]", "Struct[{[a] => Any}]", "Struct[{a => [Any]}]", "Struct[{a => 'x'}]", "Struct[a => Any, 1]", "Struct[1, a => Any]"} {
+		emitText(t, true)
+	}
+	for _, t := range []string{"Struct", "Struct[{}]", "Struct[[]]", "Struct[[{}]]", "Struct[[[{a => Any}]]]", "Struct[{a => Any, a => Integer}]", "Struct[{a => Any, 'a' => Undef, Optional[a] => String}]",
+		"Struct[{a => Any}, ]"} {
+		emitValid(t)
+	}
 	bounds := [][2]int64{{0, 0}, {0, 1}, {1, 1}, {0, math.MaxInt64}, {1, math.MaxInt64}, {0, 5}, {2, 2}}
 	for _, b := range bounds {
 		lo, hi := strconv.FormatInt(b[0], 10), strconv.FormatInt(b[1], 10)
